@@ -14,7 +14,7 @@ def Ty.TF (t : Ty) : Prop :=
   | .array e _ => Ty.TF e
   | .hash k v _ => Ty.TF k ∧ Ty.TF v
   | .variant ts => ∀ t', ∀ (_ : t' ∈ ts), Ty.TF t'
-  | .optional t' | .notUndef t' | .sensitive t' | .typ t' => Ty.TF t'
+  | .optional t' | .notUndef t' | .sensitive t' | .iterator t' | .typ t' => Ty.TF t'
   | _ => True
 termination_by t.w
 decreasing_by
@@ -36,7 +36,7 @@ def Ty.TA (sfh : Bool) (t : Ty) : Prop :=
   | .array e _ => Ty.TA sfh e
   | .hash k v _ => Ty.TA sfh k ∧ Ty.TA sfh v
   | .variant ts => ∀ t', ∀ (_ : t' ∈ ts), Ty.TA sfh t'
-  | .optional t' | .notUndef t' | .sensitive t' | .typ t' | .iterable t' => Ty.TA sfh t'
+  | .optional t' | .notUndef t' | .sensitive t' | .iterator t' | .typ t' | .iterable t' => Ty.TA sfh t'
   | _ => True
 termination_by t.w
 decreasing_by
@@ -61,7 +61,7 @@ def Ty.Frag (t : Ty) (sfh : Bool) : Prop :=
   | .tuple ts _ => ∀ t', ∀ (_ : t' ∈ ts), Ty.Frag t' sfh
   | .struct ms => sfh = false ∧ ∀ m, ∀ (_ : m ∈ ms), Ty.Frag m.2.2 sfh
   | .variant ts => ∀ t', ∀ (_ : t' ∈ ts), Ty.Frag t' sfh
-  | .optional t' | .notUndef t' | .sensitive t' => Ty.Frag t' sfh
+  | .optional t' | .notUndef t' | .sensitive t' | .iterator t' => Ty.Frag t' sfh
   | _ => True
 termination_by t.w
 decreasing_by
@@ -82,7 +82,7 @@ def Ty.US (t : Ty) : Prop :=
   | .tuple ts g => (tupleSize ts g).hi ≤ 0 ∨ ∀ t', ∀ (_ : t' ∈ ts), Ty.US t'
   | .struct ms => ∀ m, ∀ (_ : m ∈ ms), Ty.US m.2.2
   | .variant ts => ∀ t', ∀ (_ : t' ∈ ts), Ty.US t'
-  | .optional t' | .notUndef t' | .sensitive t' | .typ t' | .iterable t' => Ty.US t'
+  | .optional t' | .notUndef t' | .sensitive t' | .iterator t' | .typ t' | .iterable t' => Ty.US t'
   | _ => True
 termination_by t.w
 decreasing_by
